@@ -259,7 +259,13 @@ namespace bxdecay0_g4 {
         }
       } else {
         if (action->IsTrace()) std::cerr << "[debug] bxdecay0_g4::PrimaryGeneratorAction::pimpl_type::get_decay0: Invalid configuration!\n";
-        
+        // A new but invalid configuration is refused: the generator built
+        // from the previous configuration must not keep running in its place.
+        std::cerr << "[error] bxdecay0_g4::PrimaryGeneratorAction::pimpl_type::get_decay0: Invalid configuration! Abort run!\n";
+        destroy();
+        config = Configuration();
+        mdl_config = MdlEventOpConfiguration();
+        G4RunManager::GetRunManager()->AbortRun();
       }
     }
     if (pdecay0 == nullptr) {
